@@ -26,12 +26,15 @@ Arguments Ok {A} a.
 Arguments Err {A} code.
 Arguments Panic {A} site.
 
-(* panic sites *)
-Definition SITE_IP_TOTLEN := 1.    (* ipv4.go: h.Payload = b[20:h.TotalLen] with TotalLen < 20 *)
-Definition SITE_TCP_SHORT := 2.    (* tcp.go: data[0:2] .. data[18:20] on fewer than 20 bytes *)
-Definition SITE_TCP_OPT := 3.      (* tcp.go: opt.OptionLength = data[1] with one option byte left *)
-Definition SITE_NO_ARP := 4.       (* canary_linux.go send(): ae.HardwareAddress on a nil *ARPEntry *)
-Definition SITE_TABLE_FULL := 5.   (* state.go: panic("Statetable full") *)
+(* panic sites.  1-5 were reachable before the repairs a545d57, eb7aa9c, 3efea5c, 1cf927a;
+   the repaired code (modelled here) returns an error / drops the frame instead.  The
+   codes stay: the checker names an observed panic by them, so a regression is reported
+   with its class. *)
+Definition SITE_IP_TOTLEN := 1.    (* was ipv4.go: h.Payload = b[20:h.TotalLen] with TotalLen < 20 *)
+Definition SITE_TCP_SHORT := 2.    (* was tcp.go: data[0:2] .. data[18:20] on fewer than 20 bytes *)
+Definition SITE_TCP_OPT := 3.      (* was tcp.go: opt.OptionLength = data[1] with one option byte left *)
+Definition SITE_NO_ARP := 4.       (* was canary_linux.go send(): ae.HardwareAddress on a nil *ARPEntry *)
+Definition SITE_TABLE_FULL := 5.   (* was state.go: panic("Statetable full") *)
 Definition SITE_ARP := 6.          (* arp.go: data[:f.HardwareSize] beyond the buffer (handleARP is unreachable) *)
 Definition SITE_ETH := 7.          (* ethernet.go: data[12:14] on fewer than 14 bytes (excluded by hypothesis) *)
 
@@ -61,7 +64,7 @@ Definition ipv4_parse (b : bytes) : res iphdr :=
       let tot := u16_at b 2 in
       (* options: copy(h.Options, b[20:]) never fails *)
       if tot >? zlen b then Err 3                   (* "buffer too short" *)
-      else if tot <? 20 then Panic SITE_IP_TOTLEN   (* b[20:tot] *)
+      else if tot <? 20 then Err 1                  (* TotalLen < HeaderLen: errHeaderTooShort *)
       else Ok (mkIp hdrlen tot (byte_at b 9) (u32_at b 12) (u32_at b 16) (slice b 20 tot)).
 
 (* ---------- tcp.Unmarshal ---------- *)
@@ -77,7 +80,7 @@ Fixpoint tcp_opts (fuel : nat) (d : bytes) (n : Z) : res Z :=
           if (k =? 0)%N then Ok (n + 1)                          (* EndList: break Loop *)
           else if (k =? 1)%N then tcp_opts f r (n + 1)           (* Nop *)
           else match r with
-               | [] => Panic SITE_TCP_OPT                        (* data[1], len(data) = 1 *)
+               | [] => Err 5                                     (* len(data) < 2: kind without length *)
                | l :: _ =>
                    if (l <? 2)%N then Err 3
                    else if Z.of_N l >? zlen d then Err 4
@@ -90,11 +93,12 @@ Record thdr := mkT {
   t_sport : Z; t_dport : Z; t_seq : Z; t_ack : Z; t_off : Z; t_flags : Z; t_csum : Z;
   t_payload : bytes; t_nopts : Z }.
 
-(* THdr h e: Unmarshal returned (e = 0: nil, otherwise the error) leaving [h] in the header *)
+(* THdr h e: Unmarshal returned (e = 0: nil, otherwise the error) leaving [h] in the header.
+   TPanic is no longer produced by the repaired parser (tcp_parse_no_panic). *)
 Inductive tres := TPanic (site : Z) | THdr (h : thdr) (e : Z).
 
 Definition tcp_parse (d : bytes) : tres :=
-  if zlen d <? 20 then TPanic SITE_TCP_SHORT
+  if zlen d <? 20 then THdr (mkT 0 0 0 0 0 0 0 [] 0) 5    (* len(data) < 20: error, header untouched *)
   else
     let off := byte_at d 12 / 16 in
     let mk p n := mkT (u16_at d 0) (u16_at d 2) (u32_at d 4) (u32_at d 8) off
@@ -225,7 +229,7 @@ Definition table_add (cap : Z) (t : table) (now : Z) (k : tcb) : option (nat * t
       if zlen t <? cap then Some (length t, t ++ [Some k])     (* first trailing nil slot *)
       else match find_idle t O now with
            | Some i => Some (i, set_nth t i (Some k))
-           | None => None                                      (* panic("Statetable full") *)
+           | None => None                                      (* return false *)
            end
   end.
 
@@ -255,15 +259,18 @@ Definition orc_c02 : oracle := fun k h =>
 Record uevent := mkEv { v_src : Z; v_dst : Z; v_sport : Z; v_dport : Z; v_payload : bytes }.
 
 Inductive rxo :=
-| RIgnored (why : Z)     (* dropped: 1 not IPv4, 2 ip error, 3 other protocol, 4 tcp parse error
+| RIgnored (why : Z)     (* dropped: 10 state table full (SYN dropped), 1 not IPv4, 2 ip error, 3 other protocol, 4 tcp parse error
                             (returned), 5 not for me, 6 port 22, 7 no connection, 8 icmp parse
                             error (returned), 9 udp parse error (swallowed) *)
-| RTcp (what : Z)        (* 1 SYN answered, 2 segment on an existing connection *)
+| RTcp (what : Z) (sent : bool)
+                         (* 1 connection opened (SYN), 2 segment on an existing connection;
+                            sent: a frame was queued for transmission (send() found an ARP entry) *)
 | RIcmp                  (* knock queued *)
 | RUdpDecoded            (* handler port: decoder goroutine (recovers its own panics) *)
 | RUdpEvent (ev : uevent)
 | RBeyond
-| RFatal (site : Z)      (* unrecovered panic in the loop goroutine: process terminated *)
+| RFatal (site : Z)      (* unrecovered panic in the loop goroutine: process terminated
+                            (only a frame shorter than 14 bytes can still produce it) *)
 | RDead.                 (* frame arrived after the process had terminated *)
 
 Definition UDP_HANDLER_PORTS := [53; 123; 1900; 5060; 161; 162].
@@ -280,22 +287,22 @@ Definition rx_tcp (c : cfg) (orc : oracle) (tb : table) (now : Z) (ip : iphdr) :
       else if has_flag h SYN && negb (has_flag h ACK) then
         let k := mkTcb (ip_src ip) (t_sport h) (ip_dst ip) (t_dport h) S_LISTEN now in
         match table_add (c_cap c) tb now k with
-        | None => (RFatal SITE_TABLE_FULL, tb)
+        | None => (RIgnored 10, tb)                        (* Add returned false *)
         | Some (i, tb') =>
-            if resolve c (ip_src ip)
-            then (RTcp 1, set_nth tb' i (Some (mkTcb (k_sip k) (k_sport k) (k_dip k) (k_dport k) S_SYNRCVD now)))
-            else (RFatal SITE_NO_ARP, tb')
+            (* send() returns an error without queueing anything when the peer cannot be
+               resolved; the handshake state advances regardless *)
+            (RTcp 1 (resolve c (ip_src ip)),
+             set_nth tb' i (Some (mkTcb (k_sip k) (k_sport k) (k_dip k) (k_dport k) S_SYNRCVD now)))
         end
       else
         match table_get tb O (ip_src ip) (ip_dst ip) (t_sport h) (t_dport h) with
         | None => (RIgnored 7, tb)
         | Some (i, k) =>
             let ef := orc k h in
-            let k1 := mkTcb (k_sip k) (k_sport k) (k_dip k) (k_dport k) (k_state k) now in
+            let sent := f_sends ef && resolve c (k_sip k) in
             if f_beyond ef then (RBeyond, tb)
-            else if f_sends ef && negb (resolve c (k_sip k)) then (RFatal SITE_NO_ARP, set_nth tb i (Some k1))
-            else if f_remove ef then (RTcp 2, set_nth tb i None)
-            else (RTcp 2, set_nth tb i (Some (mkTcb (k_sip k) (k_sport k) (k_dip k) (k_dport k) (f_state ef) now)))
+            else if f_remove ef then (RTcp 2 sent, set_nth tb i None)
+            else (RTcp 2 sent, set_nth tb i (Some (mkTcb (k_sip k) (k_sport k) (k_dip k) (k_dport k) (f_state ef) now)))
         end
   end.
 
